@@ -174,7 +174,7 @@ def run(ctx):
                 "directory or _metadata), 0..2 partition columns, optionally a written index, 0..3 extra columns over 15 dtypes, page size default/64/200 bytes (several data pages per chunk), data page v1/v2; every frame "
                 "carries the injective columns id/u/g. Program: <= 3 handle operations from {slice [a:b:k] with None/negative/out-of-range/zero "
                 "step, integer pick, pickle, copy, deepcopy} then one of to_pandas / iter_row_groups(categories?) / head(n at every "
-                "row-group boundary +-1) / count / len with columns None|subset in any order|repeated|empty|unknown and index "
+                "row-group boundary +-1) / count / len, 30% of the to_pandas / iter / count reads with a row-group level filter id <|<=|>|>= k (k at every row-group boundary), with columns None|subset in any order|repeated|empty|unknown and index "
                 "default|False|one available name (stored or partition column). Every dataset carries a tz-aware datetime column t (also used as written/explicit index) and, "
                 "besides the random programs, a fixed state-roundtrip stream (to_pandas / iter / head through pickle, copy, deepcopy); two fixed datasets have a NAMED, stepped range index (stored in the pandas metadata only), three fixed "
                 "datasets hold tz-aware, ordered-categorical, nullable, text and ms/ns datetime columns. Confirmation stream (known finding): two index names. "
@@ -243,6 +243,7 @@ def run(ctx):
             ctx.case(case, trivial=trivial)
             ctx.count("terminal", rd[0])
             ctx.count("handle_ops", len(prog["ops"]))
+            ctx.count("filters", "none" if not prog.get("filters") else prog["filters"][0][1])
             for op in prog["ops"]:
                 ctx.count("op", op[0])
             ctx.count("stream", p["stream"])
@@ -262,6 +263,8 @@ def run(ctx):
     pick = sorted(rng.sample(range(len(cmds)), min(20, len(cmds))))
     _extract_agrees(ctx, [(cmds[i], outs[i]) for i in pick])
     for k, (case, p, known) in enumerate(meta):
+        if p["stream"] == "head-negative":
+            continue            # (no model: RHead takes a natural n; the oracle has compared the frame with flat[:n])
         mi = R.canon_model(outs[3 * k])
         ms = R.canon_model(outs[3 * k + 1])
         mp_ = R.rows_only(R.canon_model(outs[3 * k + 2]))
@@ -277,6 +280,12 @@ def run(ctx):
             # dropped is not observable through cells); neither the oracle nor this correspondence looks at it
             ctx.count("iter_without_data_columns_not_compared", 1)
             continue            # the real code raises here (open findings); the model describes the behaviour without the defect
+        if p.get("filter_keeps_nothing") and p["prog"]["rd"][0] != "count":
+            # a filter that keeps no row group leaves the HANDLE (its partition columns, its categorical dictionaries) as it is,
+            # whereas the model's HKeep selects on the handle like a slice (an empty selection has no partition columns - the open
+            # finding): the model is not claimed there, the oracle above decides
+            ctx.count("filter_keeps_nothing_model_not_compared", 1)
+            continue
         ctx.correspondence("Read.run ~ ParquetFile access program on the real code", case, R.align(mi, p["impl"]), p["impl"])
     ctx.extra["datasets"] = len(jobs)
     ctx.extra["corpus_cases"] = len(corpus)
